@@ -353,6 +353,10 @@ class ExtReal:
     def e_ones_like(self, t, x):
         return const(1)
 
+    def e_full_like(self, t, x, v=None, **kw):
+        v = kw.get("fill_value", v)
+        return self.ev(v)
+
     # comparisons / logic
     def cmp(self, t, x, y, op):
         a, b = self.ev(x), self.ev(y)
